@@ -190,6 +190,7 @@ def oracle_progress(w: World, ix: Index | None = None) -> list[dict[str, Any]]:
         closes = ix.closing_writes(uid)
         finals = [(r['g'], r['h'], r['outcome']) for r in ix.rets.values()
                   if r['uid'] == uid and r['kind'] in CHANGING and ix.is_final(r)]
+        inc_of_ret = {r['g']: r.get('inc') for r in ix.rets.values() if r['uid'] == uid}
         prev_g = 0
         for cw in closes:
             before = w.body_at(uid, cw.prev_rv)
@@ -224,12 +225,15 @@ def oracle_progress(w: World, ix: Index | None = None) -> list[dict[str, Any]]:
                 reason, missing = problems[0]
                 viol.append({'mech': 'closed-early', 'msg': f"{uid}: {reason} cycle closed (last-handled state stored by request #{cw.idx}) "
                              f"while {missing} had no final outcome", 'witness': {'write': cw.brief(), 'finals': finals[-8:]}})
-            if clean:
-                succ: dict[str, int] = {}
+            if not ix.kills and not ix.lost:
+                # (with graceful restarts in the run: only successes within ONE operator process are compared -- a stop that cancels a running pass
+                # loses its in-memory outcomes like a crash does, so a success before the stop and one after it are not held against each other)
+                succ: dict[tuple[str, Any], int] = {}
                 for g, h, o in finals:
                     if prev_g < g <= cw.g and o == 'ok':
-                        succ[h] = succ.get(h, 0) + 1
-                for h, n in succ.items():
+                        key = (h, inc_of_ret.get(g))
+                        succ[key] = succ.get(key, 0) + 1
+                for (h, _inc), n in succ.items():
                     if n > 1:
                         viol.append({'mech': 'double-success', 'msg': f"{uid}: {h} succeeded {n} times within one cycle (no kills, no lost responses)",
                                      'witness': {'finals': [f for f in finals if f[1] == h]}})
